@@ -99,7 +99,8 @@ def jacobi(matrix, maxsweeps):
             dnorm += fabs(eigenval[j])
             for i in range(j):
                 onorm += fabs(matrix[i][j])
-        if onorm / dnorm <= 1.0e-12:
+        # (no division: all diagonal elements are zero when the target is e.g. a tetrahedron turned by 120 degrees)
+        if onorm <= 1.0e-12 * dnorm:
             break  # goto Exit_now;
         for j in range(1, 4):
             for i in range(j):
